@@ -1088,6 +1088,18 @@ package vanguard
 //@   ensures[C05] forall i in [0, len(r0)): ufs("strings.TrimSpace", r0[i]) == r0[i]
 //@   modifies
 
+// C03: for gRPC and gRPC-Web clients an end that is known when the head is written (trailers-only
+// response) is written into the head - success and failure alike: it is the RPC's one disposition.
+//@ func grpcWriteEndToTrailers
+//@   requires respEnd != nil && trailers != nil
+//@   ensures[C03,C04] hdrCount(trailers, "Grpc-Status") == 1 && (respEnd.err == nil ==> hdr(trailers, "Grpc-Status") == "0")
+//@   modifies mapobj(trailers), #LIB
+//@ func grpcAddResponseMeta
+//@   requires headers != nil
+//@   ensures[C03] meta.end != nil ==> hdrCount(headers, "Grpc-Status") == 1 && (meta.end.err == nil ==> hdr(headers, "Grpc-Status") == "0")
+//@   ensures[C03] result == 200
+//@   modifies mapobj(headers), #LIB
+
 // C04/C05: the set of declared trailer names is keyed by canonical header names, whatever spelling
 // the backend used in its Trailer header ("grpc-status" is the spelling of the gRPC specification).
 //@ func (headerKeys).add
